@@ -4,6 +4,7 @@
   it has written itself.
 -/
 import LtVerif.Model.Server
+import LtVerif.Proofs.H1Parse
 namespace LtVerif.Req
 open LtVerif LtVerif.B
 
@@ -553,5 +554,439 @@ theorem h2Stream_answer (site : Site) (e : SrvEnv) (h2r : ReqSt) (swin : Nat) (p
     have : none = (parseIntoH2C (h2InitStream h2r swin (ReqSt.init e)).toReqCore fs es).done? := by
       rw [hr] at hq; exact hq
     rw [← this]; rfl
+
+/-! ### the HTTP/1.x and the HTTP/2 header parsers store the same request -/
+
+/-- the HTTP/2 view of a request record -/
+def asH2 (r : PReq) : PReq := { r with version := 2, keepAlive := false }
+
+theorem appendHeader_asH2 (r : PReq) (k v : Bytes) : appendHeader (asH2 r) k v = asH2 (appendHeader r k v) := by
+  unfold appendHeader asH2; split <;> rfl
+
+theorem getHeader_asH2 (r : PReq) (k : Bytes) : getHeader (asH2 r) k = getHeader r k := rfl
+
+def exMap {α β : Type} (f : α → β) : Except Nat α → Except Nat β
+  | .error e => .error e
+  | .ok a => .ok (f a)
+
+/-- field names whose handling does not depend on the protocol version -/
+def versionFree (k : Bytes) : Prop :=
+  (classifyHeader k = .other ∨ classifyHeader k = .dupCheck ∨ classifyHeader k = .ifNoneMatch)
+
+theorem singleHeader_asH2 (r : PReq) (k v : Bytes) (hk : versionFree k) :
+    singleHeader (asH2 r) k v = exMap asH2 (singleHeader r k v) := by
+  unfold singleHeader
+  rcases hk with h | h | h <;> simp only [h, getHeader_asH2]
+  · simp [exMap, appendHeader_asH2]
+  · split <;> (try split) <;> simp [exMap, appendHeader_asH2]
+  · split <;> simp [exMap, appendHeader_asH2]
+
+/-- a header field whose meaning does not depend on the protocol version, spelled the way both
+    protocols allow: lower-case token name, value non-empty, without surrounding whitespace and
+    without characters either parser rejects -/
+structure PlainField (o : Opts) (kv : Bytes × Bytes) : Prop where
+  nameNe : kv.1 ≠ []
+  nameChars : ∀ b ∈ kv.1, (isLower b || b = 45) = true
+  free : versionFree kv.1
+  notTE : kv.1 ≠ ofString "te"
+  valNe : kv.2 ≠ []
+  valTrim : trimWs kv.2 = kv.2
+  valStrict : kv.2.any lineCharInvalidStrict = false
+  valMin : kv.2.any (fun b => b = 0 || b = cr || b = lf) = false
+
+theorem applyField_plain (o : Opts) (r : PReq) (kv : Bytes × Bytes) (h : PlainField o kv) :
+    applyField o r kv = singleHeader r kv.1 kv.2 := by
+  obtain ⟨k, v⟩ := kv
+  have hv : v.isEmpty = false := by simpa using h.valNe
+  simp [applyField, hv, h.valStrict]
+
+theorem dropWhile_lower_nil (k : Bytes) (h : ∀ b ∈ k, (isLower b || b = 45) = true) :
+    k.dropWhile (fun b => isLower b || b = 45) = [] := by
+  induction k with
+  | nil => rfl
+  | cons b rest ih =>
+    have hb := h b (by simp)
+    simp only [List.dropWhile_cons, hb, if_true]
+    exact ih (fun x hx => h x (by simp [hx]))
+
+/-- the pseudo-header part of an HTTP/2 request is complete and acceptable -/
+structure ValidPseudo (o : Opts) (r : PReq) (c : H2Ctx) : Prop where
+  methodNe : r.method ≠ []
+  notConnect : r.method ≠ ofString "CONNECT"
+  scheme : c.scheme = true
+  targetSlash : r.target.head? = some slash
+  targetOk : (if o.headerStrict then (if o.ctrlsReject then false else r.target.any uriCharInvalidStrict)
+              else r.target.any (fun b => b = 0 || b = cr || b = lf)) = false
+
+theorem validatePseudo_ok (o : Opts) (r : PReq) (c : H2Ctx) (h : ValidPseudo o r c) :
+    validatePseudo o r c = .ok (r, { c with ext := false }) := by
+  have hm : r.method.isEmpty = false := by simpa using h.methodNe
+  have ht : r.target.isEmpty = false := by
+    cases ht : r.target with
+    | nil => have := h.targetSlash; simp [ht] at this
+    | cons _ _ => rfl
+  have hto := h.targetOk
+  have hnc := h.notConnect
+  have hsc := h.scheme
+  have hsl := h.targetSlash
+  unfold validatePseudo
+  simp only [hm, Bool.false_eq_true, if_false, ne_eq, hnc, not_false_eq_true, if_true, decide_true,
+             Bool.true_or, hsc, Bool.not_true, ht, hsl, not_true_eq_false, Bool.false_and, decide_false]
+  simp only [hto]
+  simp
+
+theorem h2Field_plain (o : Opts) (mf : Nat) (r : PReq) (c : H2Ctx) (kv : Bytes × Bytes)
+    (h : PlainField o kv) (hc : c.pseudo = true → ValidPseudo o r c) (hr : r.version = 2)
+    (hsz : c.hlen + kv.1.length + kv.2.length + 4 ≤ mf) :
+    h2Field o mf (r, c) kv =
+      exMap (fun r' => (r', { c with pseudo := false, hlen := c.hlen + kv.1.length + kv.2.length + 4,
+                                     ext := if c.pseudo then false else c.ext }))
+        (singleHeader r kv.1 kv.2) := by
+  obtain ⟨k, v⟩ := kv
+  have hk : k.isEmpty = false := by simpa using h.nameNe
+  have hv : v.isEmpty = false := by simpa using h.valNe
+  have hcolon : k.head? ≠ some colon := by
+    cases k with
+    | nil => simp
+    | cons b rest =>
+      have hb := h.nameChars b (by simp)
+      intro hh
+      simp only [List.head?_cons, Option.some.injEq] at hh
+      subst hh
+      revert hb; decide
+  have hbadv : (if o.headerStrict then v.any lineCharInvalidStrict
+                else v.any (fun b => b = 0 || b = cr || b = lf)) = false := by
+    split
+    · exact h.valStrict
+    · exact h.valMin
+  have htrim : trimWs v = v := h.valTrim
+  have htail := dropWhile_lower_nil k h.nameChars
+  have hnot431 : ¬ (c.hlen + k.length + v.length + 4 > mf) := by simp only [] at hsz; omega
+  have hsv : singleHeaderV r k v = singleHeader r k v := by
+    unfold singleHeaderV
+    have : ¬ r.version ≤ 1 := by omega
+    simp only [this, if_false]
+    rcases h.free with hh | hh | hh <;> simp [hh]
+  unfold h2Field
+  simp only [hk, hcolon, hnot431]
+  by_cases hp : c.pseudo = true
+  · have hvp : ValidPseudo o r { c with hlen := c.hlen + k.length + v.length + 4, pseudo := false } :=
+      ⟨(hc hp).methodNe, (hc hp).notConnect, (hc hp).scheme, (hc hp).targetSlash, (hc hp).targetOk⟩
+    simp only [hp, if_true, validatePseudo_ok o r _ hvp, hbadv, htrim, hv, htail, h.notTE]
+    simp
+    rw [hsv]
+    cases singleHeader r k v <;> simp [exMap]
+  · have hp' : c.pseudo = false := by simpa using hp
+    simp only [hp', hbadv, htrim, hv, htail, h.notTE]
+    simp
+    rw [hsv]
+    cases singleHeader r k v <;> simp [exMap]
+
+def fieldsSize (fs : List (Bytes × Bytes)) : Nat := (fs.map fun kv => kv.1.length + kv.2.length + 4).sum
+
+theorem foldl_h2FieldStep_error (o : Opts) (mf : Nat) (fs : List (Bytes × Bytes)) (e : Nat) :
+    fs.foldl (h2FieldStep o mf) (.error e) = .error e := by
+  induction fs with
+  | nil => rfl
+  | cons f rest ih => simpa [List.foldl_cons, h2FieldStep] using ih
+
+theorem singleHeader_version (r r' : PReq) (k v : Bytes) (hk : versionFree k) (h : singleHeader r k v = .ok r') :
+    r'.version = r.version ∧ r'.method = r.method ∧ r'.target = r.target ∧ r'.bodyLen = r.bodyLen ∧
+    r'.clSeen = r.clSeen := by
+  unfold singleHeader at h
+  rcases hk with hh | hh | hh <;> simp only [hh] at h
+  · simp at h; subst h; unfold appendHeader; split <;> simp
+  · split at h
+    · split at h <;> simp at h; subst h; simp
+    · simp at h; subst h; unfold appendHeader; split <;> simp
+  · split at h
+    · simp at h; subst h; simp
+    · simp at h; subst h; unfold appendHeader; split <;> simp
+
+theorem applyFields_plain_fields (o : Opts) : ∀ (fs : List (Bytes × Bytes)) (r r' : PReq),
+    (∀ kv ∈ fs, PlainField o kv) → applyFields o r fs = .ok r' →
+    r'.version = r.version ∧ r'.method = r.method ∧ r'.target = r.target ∧ r'.bodyLen = r.bodyLen ∧
+    r'.clSeen = r.clSeen := by
+  intro fs
+  induction fs with
+  | nil => intro r r' _ h; simp [applyFields] at h; subst h; simp
+  | cons kv rest ih =>
+    intro r r' hpl h
+    have hkv := hpl kv (by simp)
+    simp only [applyFields, applyField_plain o r kv hkv] at h
+    cases hs : singleHeader r kv.1 kv.2 with
+    | error e => simp [hs] at h
+    | ok r1 =>
+      simp only [hs] at h
+      have h1 := singleHeader_version r r1 kv.1 kv.2 hkv.free hs
+      have h2 := ih r1 r' (fun x hx => hpl x (by simp [hx])) h
+      exact ⟨h2.1.trans h1.1, h2.2.1.trans h1.2.1, h2.2.2.1.trans h1.2.2.1, h2.2.2.2.1.trans h1.2.2.2.1,
+             h2.2.2.2.2.trans h1.2.2.2.2⟩
+
+/-- the field loop of the HTTP/2 parser on version-free fields does to the HTTP/2 view of a request
+    record what the HTTP/1.x field loop does to the record -/
+theorem h2_fold_plain (o : Opts) (mf : Nat) : ∀ (fs : List (Bytes × Bytes)) (r : PReq) (c : H2Ctx),
+    (∀ kv ∈ fs, PlainField o kv) → (c.pseudo = true → ValidPseudo o (asH2 r) c) →
+    c.hlen + fieldsSize fs ≤ mf →
+    exMap (·.1) (fs.foldl (h2FieldStep o mf) (.ok (asH2 r, c))) = exMap asH2 (applyFields o r fs) ∧
+    (∀ r' c', fs.foldl (h2FieldStep o mf) (.ok (asH2 r, c)) = .ok (r', c') →
+        (fs ≠ [] → c'.pseudo = false) ∧ (c.ext = false → c'.ext = false)) := by
+  intro fs
+  induction fs with
+  | nil =>
+    intro r c _ _ _
+    refine ⟨rfl, fun r' c' h => ?_⟩
+    simp only [List.foldl_nil, Except.ok.injEq, Prod.mk.injEq] at h
+    exact ⟨fun hh => absurd rfl hh, fun he => by rw [← h.2]; exact he⟩
+  | cons kv rest ih =>
+    intro r c hpl hvp hsz
+    have hkv := hpl kv (by simp)
+    have hsz1 : c.hlen + kv.1.length + kv.2.length + 4 ≤ mf := by
+      simp only [fieldsSize, List.map_cons, List.sum_cons] at hsz; omega
+    simp only [List.foldl_cons, h2FieldStep]
+    rw [h2Field_plain o mf (asH2 r) c kv hkv hvp rfl hsz1, singleHeader_asH2 _ _ _ hkv.free]
+    simp only [applyFields, applyField_plain o r kv hkv]
+    cases hs : singleHeader r kv.1 kv.2 with
+    | error e =>
+      simp only [exMap]
+      rw [foldl_h2FieldStep_error]
+      exact ⟨rfl, fun r' c' h => by simp at h⟩
+    | ok r1 =>
+      simp only [exMap]
+      have hrest : ∀ kv ∈ rest, PlainField o kv := fun x hx => hpl x (by simp [hx])
+      have hsz2 : (c.hlen + kv.1.length + kv.2.length + 4) + fieldsSize rest ≤ mf := by
+        simp only [fieldsSize, List.map_cons, List.sum_cons] at hsz ⊢; omega
+      have := ih r1 { c with pseudo := false, hlen := c.hlen + kv.1.length + kv.2.length + 4,
+                             ext := if c.pseudo then false else c.ext } hrest (by simp) hsz2
+      refine ⟨this.1, fun r' c' h => ?_⟩
+      have h2 := this.2 r' c' h
+      refine ⟨fun _ => ?_, fun he => h2.2 (by simp [he])⟩
+      cases hrest' : rest with
+      | nil => subst hrest'; simp at h; rw [← h.2]
+      | cons x xs => exact h2.1 (by simp [hrest'])
+
+def pre1 (m t : Bytes) : PReq := { version := 1, keepAlive := true, method := m, target := t }
+def pre2 : PReq := { version := 2 }
+def pseudoFields (m t a : Bytes) : List (Bytes × Bytes) :=
+  [(ofString ":method", m), (ofString ":scheme", ofString "http"), (ofString ":path", t), (ofString ":authority", a)]
+
+theorem asH2_setHost (r : PReq) (a : Bytes) : asH2 (setHost r a) = setHost (asH2 r) a := rfl
+
+theorem h2_pseudo_prefix (o : Opts) (mf : Nat) (m t a : Bytes) (hm : methodTable.contains m = true)
+    (hmne : m ≠ []) (htne : t ≠ []) (hane : a ≠ []) (halen : a.length < 1024)
+    (hsz : fieldsSize (pseudoFields m t a) ≤ mf) :
+    (pseudoFields m t a).foldl (h2FieldStep o mf) (.ok (pre2, {})) =
+      .ok (asH2 (setHost (pre1 m t) a),
+           { pseudo := true, scheme := true, hlen := fieldsSize (pseudoFields m t a), ext := false }) := by
+  have e1 : (ofString ":method").isEmpty = false := by decide
+  have e2 : (ofString ":scheme").isEmpty = false := by decide
+  have e3 : (ofString ":path").isEmpty = false := by decide
+  have e4 : (ofString ":authority").isEmpty = false := by decide
+  have c1 : (ofString ":method").head? = some colon := by decide
+  have c2 : (ofString ":scheme").head? = some colon := by decide
+  have c3 : (ofString ":path").head? = some colon := by decide
+  have c4 : (ofString ":authority").head? = some colon := by decide
+  have n1 : ofString ":method" ≠ ofString ":authority" := by decide
+  have n2 : ofString ":scheme" ≠ ofString ":authority" := by decide
+  have n3 : ofString ":scheme" ≠ ofString ":method" := by decide
+  have n4 : ofString ":scheme" ≠ ofString ":path" := by decide
+  have n5 : ofString ":path" ≠ ofString ":authority" := by decide
+  have n6 : ofString ":path" ≠ ofString ":method" := by decide
+  have hm' : m.isEmpty = false := by simpa using hmne
+  have ht' : t.isEmpty = false := by simpa using htne
+  have ha' : a.isEmpty = false := by simpa using hane
+  have hh : (ofString "http").isEmpty = false := by decide
+  simp only [fieldsSize, pseudoFields, List.map_cons, List.map_nil, List.sum_cons, List.sum_nil] at hsz
+  have s1 : ¬ (0 + (ofString ":method").length + m.length + 4 > mf) := by omega
+  have s2 : ¬ (0 + (ofString ":method").length + m.length + 4 + (ofString ":scheme").length + (ofString "http").length + 4 > mf) := by omega
+  have s3 : ¬ (0 + (ofString ":method").length + m.length + 4 + (ofString ":scheme").length + (ofString "http").length + 4
+               + (ofString ":path").length + t.length + 4 > mf) := by omega
+  have s4 : ¬ (0 + (ofString ":method").length + m.length + 4 + (ofString ":scheme").length + (ofString "http").length + 4
+               + (ofString ":path").length + t.length + 4 + (ofString ":authority").length + a.length + 4 > mf) := by omega
+  have hal : ¬ (a.length ≥ 1024) := by omega
+  simp only [pseudoFields, List.foldl_cons, List.foldl_nil, h2FieldStep, h2Field, e1, e2, e3, e4, c1, c2, c3, c4,
+             n1, n2, n3, n4, n5, n6, hm', ht', ha', hh, s1, s2, s3, s4, hal, hm, pre2, Bool.false_eq_true, if_false,
+             if_true, Bool.not_true, Bool.not_false, List.isEmpty_nil, Option.isSome_none, fieldsSize,
+             List.map_cons, List.map_nil, List.sum_cons, List.sum_nil]
+  simp [asH2, setHost, pre1]
+  omega
+
+theorem applyFields_host (o : Opts) (m t a : Bytes) (fs : List (Bytes × Bytes)) (hane : a ≠ [])
+    (halen : a.length < 1024) (haval : a.any lineCharInvalidStrict = false) :
+    applyFields o (pre1 m t) ((ofString "host", a) :: fs) = applyFields o (setHost (pre1 m t) a) fs := by
+  have ha' : a.isEmpty = false := by simpa using hane
+  have hcls : classifyHeader (ofString "host") = .host := by decide
+  have hal : ¬ (a.length ≥ 1024) := by omega
+  have htag : hasTag (pre1 m t) (ofString "host") = false := by simp [hasTag, getHeader, pre1]
+  simp [applyFields, applyField, ha', haval, singleHeader, hcls, htag, hal]
+
+/-- **the two header parsers store the same request**: the HTTP/2 field loop on
+    `:method m, :scheme http, :path t, :authority a` followed by version-free fields `fs` yields the
+    HTTP/2 view of what the HTTP/1.x field loop yields on the request line `m t HTTP/1.1`, `Host: a`
+    and the same fields — or both reject with the same status -/
+theorem h2Fields_spec (o : Opts) (mf : Nat) (m t a : Bytes) (fs : List (Bytes × Bytes))
+    (hm : methodTable.contains m = true) (hmne : m ≠ []) (hnc : m ≠ ofString "CONNECT")
+    (htsl : t.head? = some slash)
+    (htok : (if o.headerStrict then (if o.ctrlsReject then false else t.any uriCharInvalidStrict)
+             else t.any (fun b => b = 0 || b = cr || b = lf)) = false)
+    (hane : a ≠ []) (halen : a.length < 1024) (haval : a.any lineCharInvalidStrict = false)
+    (hpl : ∀ kv ∈ fs, PlainField o kv) (hsz : fieldsSize (pseudoFields m t a) + fieldsSize fs ≤ mf) :
+    match applyFields o (pre1 m t) ((ofString "host", a) :: fs) with
+    | .error e => h2Fields o mf pre2 {} (pseudoFields m t a ++ fs) = .error e
+    | .ok r1 => ∃ c, h2Fields o mf pre2 {} (pseudoFields m t a ++ fs) = .ok (asH2 r1, c) ∧ c.ext = false := by
+  have htne : t ≠ [] := by intro h; simp [h] at htsl
+  rw [applyFields_host o m t a fs hane halen haval]
+  unfold h2Fields
+  rw [List.foldl_append, h2_pseudo_prefix o mf m t a hm hmne htne hane halen (by omega)]
+  have hvp : ValidPseudo o (asH2 (setHost (pre1 m t) a))
+      { pseudo := true, scheme := true, hlen := fieldsSize (pseudoFields m t a), ext := false } :=
+    ⟨by simpa [asH2, setHost, pre1] using hmne, by simpa [asH2, setHost, pre1] using hnc, rfl,
+     by simpa [asH2, setHost, pre1] using htsl, by simpa [asH2, setHost, pre1] using htok⟩
+  have hfold := h2_fold_plain o mf fs (setHost (pre1 m t) a)
+    { pseudo := true, scheme := true, hlen := fieldsSize (pseudoFields m t a), ext := false } hpl (fun _ => hvp) hsz
+  cases hfs : fs with
+  | nil =>
+    subst hfs
+    simp only [List.foldl_nil, if_true, validatePseudo_ok o _ _ hvp, applyFields]
+    exact ⟨_, rfl, rfl⟩
+  | cons x xs =>
+    have hne : fs ≠ [] := by simp [hfs]
+    rw [← hfs]
+    cases hr : fs.foldl (h2FieldStep o mf)
+        (.ok (asH2 (setHost (pre1 m t) a),
+              { pseudo := true, scheme := true, hlen := fieldsSize (pseudoFields m t a), ext := false })) with
+    | error e =>
+      rw [hr] at hfold
+      have h1 := hfold.1
+      cases ha : applyFields o (setHost (pre1 m t) a) fs with
+      | error e' => simp [ha, exMap] at h1; simp [h1]
+      | ok r1 => simp [ha, exMap] at h1
+    | ok rc =>
+      obtain ⟨r', c'⟩ := rc
+      have hp := hfold.2 r' c' hr
+      rw [hr] at hfold
+      have h1 := hfold.1
+      cases ha : applyFields o (setHost (pre1 m t) a) fs with
+      | error e' => simp [ha, exMap] at h1
+      | ok r1 =>
+        simp only [ha, exMap, Except.ok.injEq] at h1
+        simp only [hp.1 hne, Bool.false_eq_true, if_false]
+        exact ⟨c', by rw [← h1], hp.2 rfl⟩
+
+def liftHeadRes : HeadRes → HeadRes
+  | .ok r t => .ok (asH2 r) t
+  | .err e => .err e
+  | .skipV6 => .skipV6
+
+theorem hostPolicy_asH2 (o : Opts) (p : Nat) (r : PReq) (hv : r.version = 1) :
+    hostPolicy o p (asH2 r) = (hostPolicy o p r).map (·.map asH2) := by
+  unfold hostPolicy
+  simp only [show (asH2 r).host = r.host from rfl, show (asH2 r).version = 2 from rfl, hv]
+  cases r.host with
+  | none => simp
+  | some h =>
+    simp only []
+    split
+    · rfl
+    · split
+      · rfl
+      · split
+        · rfl
+        · rfl
+
+theorem hostPolicy_fields (o : Opts) (p : Nat) (r r' : PReq) (h : hostPolicy o p r = some (some r')) :
+    r'.version = r.version ∧ r'.method = r.method ∧ r'.bodyLen = r.bodyLen ∧ r'.clSeen = r.clSeen := by
+  unfold hostPolicy at h
+  cases hh : r.host with
+  | none =>
+    simp only [hh] at h
+    split at h
+    · simp at h
+    · simp at h; subst h; simp
+  | some x =>
+    simp only [hh] at h
+    split at h
+    · simp at h
+    · split at h
+      · simp at h
+      · split at h
+        · simp at h
+        · simp at h; subst h; simp
+
+/-- the cross-field rules treat the HTTP/2 view of a bodiless non-POST request without Upgrade /
+    HTTP2-Settings like the HTTP/1.1 request itself -/
+theorem postChecks_asH2 (o : Opts) (r : PReq) (t : Target) (hv : r.version = 1) (hb : r.bodyLen = 0)
+    (hpost : r.method ≠ ofString "POST")
+    (hup : (hasTag r (ofString "upgrade") || hasTag r (ofString "http2-settings")) = false) :
+    postChecks o (asH2 r) t = liftHeadRes (postChecks o r t) := by
+  unfold postChecks
+  simp only [show (asH2 r).version = 2 from rfl, show (asH2 r).bodyLen = r.bodyLen from rfl,
+             show (asH2 r).method = r.method from rfl, show hasTag (asH2 r) = hasTag r from rfl,
+             hv, hb, hup, hpost]
+  simp [liftHeadRes]
+
+theorem parsePostV_asH2 (o : Opts) (r : PReq) (hv : r.version = 1)
+    (hok : ∀ r', hostPolicy o 80 r = some (some r') →
+      r'.bodyLen = 0 ∧ r'.method ≠ ofString "POST" ∧
+      (hasTag r' (ofString "upgrade") || hasTag r' (ofString "http2-settings")) = false) :
+    parsePostV o 80 false (asH2 r) = liftHeadRes (parsePostV o 80 false r) := by
+  unfold parsePostV
+  simp only [show (asH2 r).method = r.method from rfl, show (asH2 r).target = r.target from rfl]
+  cases parseTarget o ((r.method = ofString "CONNECT" && !false) || (r.method = ofString "OPTIONS" && r.target = [42])) r.target with
+  | error e => rfl
+  | ok t =>
+    simp only [hostPolicy_asH2 o 80 r hv]
+    cases hp : hostPolicy o 80 r with
+    | none => rfl
+    | some x =>
+      cases x with
+      | none => rfl
+      | some r' =>
+        simp only [Option.map_some]
+        have hf := hostPolicy_fields o 80 r r' hp
+        obtain ⟨hb, hm, hu⟩ := hok r' hp
+        exact postChecks_asH2 o r' t (by rw [hf.1, hv]) hb hm hu
+
+/-- what the request parsers make of a semantic request: HTTP/1.1 (`m t HTTP/1.1`, `Host: a`, fields)
+    and HTTP/2 (`:method m`, `:scheme http`, `:path t`, `:authority a`, fields, END_STREAM) -/
+def parseSemH1 (o : Opts) (m t a : Bytes) (fs : List (Bytes × Bytes)) : HeadRes :=
+  match applyFields o (pre1 m t) ((ofString "host", a) :: fs) with
+  | .error e => .err e
+  | .ok r => parsePostV o 80 false r
+
+def parseSemH2 (o : Opts) (mf : Nat) (m t a : Bytes) (fs : List (Bytes × Bytes)) : HeadRes :=
+  match h2Fields o mf pre2 {} (pseudoFields m t a ++ fs) with
+  | .error e => .err e
+  | .ok (r, c) => parsePostV o 80 c.ext r
+
+theorem parseSem_same (o : Opts) (mf : Nat) (m t a : Bytes) (fs : List (Bytes × Bytes))
+    (hm : methodTable.contains m = true) (hmne : m ≠ []) (hnc : m ≠ ofString "CONNECT")
+    (hnp : m ≠ ofString "POST") (htsl : t.head? = some slash)
+    (htok : (if o.headerStrict then (if o.ctrlsReject then false else t.any uriCharInvalidStrict)
+             else t.any (fun b => b = 0 || b = cr || b = lf)) = false)
+    (hane : a ≠ []) (halen : a.length < 1024) (haval : a.any lineCharInvalidStrict = false)
+    (hpl : ∀ kv ∈ fs, PlainField o kv) (hsz : fieldsSize (pseudoFields m t a) + fieldsSize fs ≤ mf)
+    (hup : ∀ r r', applyFields o (pre1 m t) ((ofString "host", a) :: fs) = .ok r →
+      hostPolicy o 80 r = some (some r') →
+      (hasTag r' (ofString "upgrade") || hasTag r' (ofString "http2-settings")) = false) :
+    parseSemH2 o mf m t a fs = liftHeadRes (parseSemH1 o m t a fs) := by
+  have hspec := h2Fields_spec o mf m t a fs hm hmne hnc htsl htok hane halen haval hpl hsz
+  unfold parseSemH1 parseSemH2
+  cases ha : applyFields o (pre1 m t) ((ofString "host", a) :: fs) with
+  | error e =>
+    simp only [ha] at hspec
+    simp only [hspec]; rfl
+  | ok r1 =>
+    simp only [ha] at hspec
+    obtain ⟨c, hc, hext⟩ := hspec
+    simp only [hc, hext]
+    have hf : r1.version = 1 ∧ r1.method = m ∧ r1.target = t ∧ r1.bodyLen = 0 ∧ r1.clSeen = false := by
+      rw [applyFields_host o m t a fs hane halen haval] at ha
+      have := applyFields_plain_fields o fs _ r1 hpl ha
+      simpa [setHost, pre1] using this
+    apply parsePostV_asH2 o r1 hf.1
+    intro r' hr'
+    have hh := hostPolicy_fields o 80 r1 r' hr'
+    exact ⟨by rw [hh.2.2.1, hf.2.2.2.1], by rw [hh.2.1, hf.2.1]; exact hnp, hup r1 r' ha hr'⟩
 
 end LtVerif.Req
